@@ -358,7 +358,7 @@ def replay(prop, path):
             module, cfg = "Trace_Tok", "Trace_Tok.cfg"
         elif "cfg" in init:
             module, cfg = "Trace_Cfg", None
-    r = core.tlc_trace(module, path, cfg=cfg, tag=f"replay-{prop}")
+    r = core.tlc_trace(module, path, cfg=cfg, tag=f"replay-{prop}", extra_env={"JVIEW": prop} if prop in ("C06", "C07") else None)
     if r["accepted"]:
         print("replay accepted by the specification")
         return 0
